@@ -122,6 +122,58 @@ def run_case(case):
     return res
 
 
+def window_programs():
+    """Deterministic programs: for every integer type and every narrower width w, variables initialised with literals whose bit
+    w-1 is the top bit set (2^(w-1), 2^w - 1, one value in between), declared, assigned and passed, each printed; compiled with
+    decimal, hexadecimal and binary spellings. A literal denotes its value whatever bits it has in common with a narrower type."""
+    from .gen_prog import P, BITS, INTS
+    progs = []
+    for t in INTS:
+        body = []
+        k = 0
+        for w in (8, 16, 32, 64, 128):
+            if w > BITS[t]:
+                continue
+            top = w - 1 if (t.startswith("i") and w == BITS[t]) else w      # stay inside the type
+            if top < 2:
+                continue
+            for v in ((1 << (top - 1)), (1 << top) - 1, (1 << (top - 1)) + 5):
+                name = "w%d" % k
+                k += 1
+                body.append(("var", name, P(t), ("lit", P(t), v)))
+                body.append(("print", [("read", P(t), (name, ())), ("str", None, b"\n")]))
+                body.append(("assign", (name, ()), ("lit", P(t), v)))
+                body.append(("print", [("bin", P(t), "+", ("read", P(t), (name, ())), ("lit", P(t), 0)), ("str", None, b"\n")]))
+        prog = gen_prog.Program()
+        prog.funcs = [{"name": "main", "params": [], "ret": P("i32"), "body": body, "ret_expr": ("lit", P("i32"), 0),
+                       "effectful": True, "index": 0}]
+        progs.append((t, prog))
+    return progs
+
+
+def run_window(case):
+    _, idx = case
+    t, prog = window_programs()[idx]
+    out, status, _trace = interp.run_program(prog)
+    cov = {"literal_window_programs": 1}
+    for lit in ("plain", "hex", "bin"):
+        style = gen_prog.Style(rng=common.rng_for(idx, "window", lit), lit=lit)
+        src = gen_prog.to_source(prog, style)
+        kind, r = compile_sources([("window.pn", src)], "chk")
+        replay = {"source": src, "style": {"lit": lit}, "expected_stdout": out.decode("latin-1"), "expected_status": status}
+        if kind != "resp" or r["status"] != "ok":
+            what = r.signature() if kind == "crash" else (common.panic_signature(r) if kind == "panic" else
+                                                          sorted(set(e["code"] for e in r.get("errors", []))))
+            return {"verdict": VIOLATED, "sig": "literal-window program (%s spelling) not compiled: %s" % (lit, what), "detail": str(r)[:300],
+                    "replay": replay, "cov": cov}
+        res = common.run_lli(r["ir"], timeout=20)
+        if res["stdout"] != out or res["code"] != status:
+            return {"verdict": VIOLATED, "sig": "literal with the top bit of a narrower width set denotes another value (%s spelling)" % lit,
+                    "detail": first_diff(out, res["stdout"], status, res["code"]), "replay": replay, "cov": cov}
+        cov["literal_window_variants"] = cov.get("literal_window_variants", 0) + 1
+    return {"verdict": HELD, "cov": cov, "nt": "window:" + t}
+
+
 # Constructs the random class leaves out because the unchanged tree mishandles them (known findings);
 # each is kept alive as a fixed probe with an exact signature, so the defect is re-observed on every run
 # and anything else that goes wrong with these programs is still raised.
@@ -218,6 +270,7 @@ def main(tier, seed, replay=None):
     n = 1200 if tier == "quick" else 40000
     cases = [(seed, i, 3 if i % 4 == 0 else 1) if tier == "quick" else (seed, i, 3) for i in range(n)]
     results = common.run_sharded(run_case, cases)
+    results += common.run_sharded(run_window, [("window", k) for k in range(len(window_programs()))])
     for name in sorted(PROBES):
         results.append(run_probe(name))
     for r in results:
